@@ -279,9 +279,20 @@ func Implies(a, b *Term) *Term {
 	}
 	return mk("=>", SBool, a, b)
 }
+func isIntLitTerm(t *Term) bool {
+	if len(t.Args) != 0 || t.S != SInt || t.Head == "" {
+		return false
+	}
+	c := t.Head[0]
+	return (c >= '0' && c <= '9') || strings.HasPrefix(t.Head, "(- ")
+}
+
 func Eq(a, b *Term) *Term {
 	if a == b {
 		return TTrue
+	}
+	if isIntLitTerm(a) && isIntLitTerm(b) {
+		return TFalse // distinct integer literals (hash-consing makes equal ones identical)
 	}
 	if a.S != b.S {
 		panic(fmt.Sprintf("Eq sort mismatch: %s : %s  vs  %s : %s", a.Short(), a.S.S, b.Short(), b.S.S))
@@ -565,4 +576,12 @@ func sortedKeys(m map[string]string) []string {
 	}
 	sort.Strings(ks)
 	return ks
+}
+
+// Args0 returns the guard of an implication (or true).
+func (t *Term) Args0() *Term {
+	if t.Head == "=>" && len(t.Args) == 2 {
+		return t.Args[0]
+	}
+	return TTrue
 }
